@@ -414,9 +414,13 @@ VALUE_POOL = {
     "date": [dt.date(2020, 1, 2), "2020-01-02", "2020-1-2", "02.01.2020", dt.datetime(2020, 1, 2, 3, 4, 5), "", None,
              ["2020-01-02", "x"], 20200102, "2020-01-02 10:00:00"],
     "time": [dt.time(1, 2, 3), "01:02:03", "1:2:3", "25:00:00", dt.time(1, 2, 3, 456), "01:02", "", None,
+             dt.time(1, 2, 3, tzinfo=dt.timezone.utc), "01:02:03+00:00", "01:02:03.5",
              dt.datetime(2020, 1, 2, 3, 4, 5), 5],
     "datetime": [dt.datetime(2020, 1, 2, 3, 4, 5), "2020-01-02 03:04:05", "2020-01-02T03:04:05",
-                 dt.datetime(2020, 1, 2, 3, 4, 5, 678), dt.date(2020, 1, 2), "2020-01-02", "", None, "x"],
+                 dt.datetime(2020, 1, 2, 3, 4, 5, 678), dt.date(2020, 1, 2), "2020-01-02", "", None, "x",
+                 dt.datetime(2020, 1, 2, 3, 4, 5, tzinfo=dt.timezone.utc),
+                 dt.datetime(2020, 1, 2, 3, 4, 5, 9, tzinfo=dt.timezone(dt.timedelta(hours=2))),
+                 "2020-01-02 03:04:05+00:00", "2020-01-02 03:04:05.123"],
     "2-tuple": ["(1;2)", "(1; 2)", ["1", "2"], [["1", "2"]], "(1;2;3)", "(1)", "1;2", "", None, "[(1;2),(3;4)]",
                 ["(1;2)", "(3;4)"], [["a", "b"], ["c"]], (1, 2), [(1, 2)], "( a ; b )", "((1;2))", "(;)"],
     "3-tuple": ["(1;2;3)", ["a", "b", "c"], "(1;2)"],
